@@ -80,6 +80,7 @@ package rsl
 //@   ensures faultReported: faults > old(faults) ==> err != nil
 //@   ensures faultsMonotone: faults >= old(faults)
 //@   ensures notFoundOnlyByFault: errIs(err, ErrRSLEntryNotFound) ==> faults > old(faults)
+//@   ensures errorCause: err != nil ==> faults > old(faults) || !pOK(cmsg(entryID))
 
 //@ func [C04,C03] GetLatestEntry -> (e, err)
 //@   requires storer != nil
@@ -91,6 +92,8 @@ package rsl
 //@   ensures faultReported: faults > old(faults) ==> err != nil
 //@   ensures faultsMonotone: faults >= old(faults)
 //@   ensures notFoundMeansEmpty: errIs(err, ErrRSLEntryNotFound) ==> !refSet[Ref] && faults == old(faults)
+//@   ensures errorCause: err != nil ==> faults > old(faults) || !refSet[Ref] || !pOK(cmsg(refTip[Ref]))
+//@   ensures emptyNoFault: !refSet[Ref] && faults == old(faults) ==> err == ErrRSLEntryNotFound
 
 //@ func [C04] GetParentForEntry -> (p, err)
 //@   requires storer != nil
@@ -155,6 +158,7 @@ package rsl
 //@   ensures failureLeavesNoTrace: err != nil ==> storeUnchanged()
 //@   ensures faultReported: faults > old(faults) ==> err != nil
 //@   ensures faultsMonotone: faults >= old(faults)
+//@   ensures errorCause: err != nil ==> faults > old(faults)
 
 //@ func [C03,C16,C17] commitEntryUsingSpecificKey -> (err)
 //@   requires storer != nil
@@ -162,12 +166,14 @@ package rsl
 //@   ensures appendsOne: err == nil ==> appended(message)
 //@   ensures failureLeavesNoTrace: err != nil ==> storeUnchanged()
 //@   ensures faultReported: faults > old(faults) ==> err != nil
+//@   ensures errorCause: err != nil ==> faults > old(faults)
 //@   ensures faultsMonotone: faults >= old(faults)
 
 //@ func [C03,C16] (*ReferenceEntry).setEntryNumber -> (err)
 //@   requires e != nil && storer != nil
 //@   assigns ghost faults, e.Number, fresh(ReferenceEntry.*), fresh(AnnotationEntry.*), fresh(PropagationEntry.*), fresh(elems Hash)
 //@   ensures follows: err == nil ==> e.Number == nextNumber()
+//@   ensures errorCause: err != nil ==> faults > old(faults) || (refSet[Ref] && !pOK(cmsg(refTip[Ref])))
 //@   ensures faultReported: faults > old(faults) ==> err != nil
 //@   ensures faultsMonotone: faults >= old(faults)
 //@   ensures storeUntouched: storeUnchanged()
@@ -176,6 +182,7 @@ package rsl
 //@   requires a != nil && storer != nil
 //@   assigns ghost faults, a.Number, fresh(ReferenceEntry.*), fresh(AnnotationEntry.*), fresh(PropagationEntry.*), fresh(elems Hash)
 //@   ensures follows: err == nil ==> a.Number == nextNumber()
+//@   ensures errorCause: err != nil ==> faults > old(faults) || (refSet[Ref] && !pOK(cmsg(refTip[Ref])))
 //@   ensures faultReported: faults > old(faults) ==> err != nil
 //@   ensures faultsMonotone: faults >= old(faults)
 //@   ensures storeUntouched: storeUnchanged()
@@ -184,6 +191,7 @@ package rsl
 //@   requires e != nil && storer != nil
 //@   assigns ghost faults, e.Number, fresh(ReferenceEntry.*), fresh(AnnotationEntry.*), fresh(PropagationEntry.*), fresh(elems Hash)
 //@   ensures follows: err == nil ==> e.Number == nextNumber()
+//@   ensures errorCause: err != nil ==> faults > old(faults) || (refSet[Ref] && !pOK(cmsg(refTip[Ref])))
 //@   ensures faultReported: faults > old(faults) ==> err != nil
 //@   ensures faultsMonotone: faults >= old(faults)
 //@   ensures storeUntouched: storeUnchanged()
@@ -213,6 +221,7 @@ package rsl
 
 //@ func [C03,C16,C17] (*ReferenceEntry).Commit -> (err)
 //@   requires e != nil && storer != nil
+//@   ensures errorCause: err != nil ==> faults > old(faults) || (old(refSet)[Ref] && !pOK(cmsg(old(refTip)[Ref])))
 //@   assigns ghost faults, ghost refTip, ghost refSet, ghost objSet, e.Number, fresh(ReferenceEntry.*), fresh(AnnotationEntry.*), fresh(PropagationEntry.*), fresh(elems Hash)
 //@   ensures recorded: err == nil ==> recordedOK() && pKind(cmsg(refTip[Ref])) == 1 && pRef(cmsg(refTip[Ref])) == e.RefName && pTarget(cmsg(refTip[Ref])) == e.TargetID
 //@   ensures failureLeavesNoTrace: err != nil ==> storeUnchanged()
@@ -221,6 +230,7 @@ package rsl
 
 //@ func [C03,C16,C17] (*ReferenceEntry).CommitUsingSpecificKey -> (err)
 //@   requires e != nil && storer != nil
+//@   ensures errorCause: err != nil ==> faults > old(faults) || (old(refSet)[Ref] && !pOK(cmsg(old(refTip)[Ref])))
 //@   assigns ghost faults, ghost refTip, ghost refSet, ghost objSet, e.Number, fresh(ReferenceEntry.*), fresh(AnnotationEntry.*), fresh(PropagationEntry.*), fresh(elems Hash)
 //@   ensures recorded: err == nil ==> recordedOK() && pKind(cmsg(refTip[Ref])) == 1 && pRef(cmsg(refTip[Ref])) == e.RefName && pTarget(cmsg(refTip[Ref])) == e.TargetID
 //@   ensures failureLeavesNoTrace: err != nil ==> storeUnchanged()
@@ -229,6 +239,7 @@ package rsl
 
 //@ func [C03,C16,C17] (*PropagationEntry).Commit -> (err)
 //@   requires e != nil && storer != nil
+//@   ensures errorCause: err != nil ==> faults > old(faults) || (old(refSet)[Ref] && !pOK(cmsg(old(refTip)[Ref])))
 //@   assigns ghost faults, ghost refTip, ghost refSet, ghost objSet, e.Number, fresh(ReferenceEntry.*), fresh(AnnotationEntry.*), fresh(PropagationEntry.*), fresh(elems Hash)
 //@   ensures recorded: err == nil ==> recordedOK() && pKind(cmsg(refTip[Ref])) == 3 && pRef(cmsg(refTip[Ref])) == e.RefName && pTarget(cmsg(refTip[Ref])) == e.TargetID
 //@   ensures failureLeavesNoTrace: err != nil ==> storeUnchanged()
@@ -237,6 +248,7 @@ package rsl
 
 //@ func [C03,C16,C17] (*PropagationEntry).CommitUsingSpecificKey -> (err)
 //@   requires e != nil && storer != nil
+//@   ensures errorCause: err != nil ==> faults > old(faults) || (old(refSet)[Ref] && !pOK(cmsg(old(refTip)[Ref])))
 //@   assigns ghost faults, ghost refTip, ghost refSet, ghost objSet, e.Number, fresh(ReferenceEntry.*), fresh(AnnotationEntry.*), fresh(PropagationEntry.*), fresh(elems Hash)
 //@   ensures recorded: err == nil ==> recordedOK() && pKind(cmsg(refTip[Ref])) == 3 && pRef(cmsg(refTip[Ref])) == e.RefName && pTarget(cmsg(refTip[Ref])) == e.TargetID
 //@   ensures failureLeavesNoTrace: err != nil ==> storeUnchanged()
@@ -381,3 +393,32 @@ package rsl
 //@     invariant linesInIDs: forall j :: 0 <= j && j <= rangeindex && keyOf(body[j]) == EntryIDKey ==> 0 <= gw[j] && gw[j] < len(annotation.RSLEntryIDs) && hashParsed(annotation.RSLEntryIDs[gw[j]], valOf(body[j]))
 //@     invariant haveNumber: state == 2 ==> gs < gc && gc <= rangeindex && keyOf(body[gc]) == NumberKey && numParsed(annotation.Number, valOf(body[gc])) && forall j :: 0 <= j && j <= rangeindex && j != gc ==> keyOf(body[j]) != NumberKey
 //@     invariant entryID: annotation != nil && annotation.ID == id
+
+//@ # ---- the plain newest-to-oldest scan for "latest reference-updater entry for ref" (no other filters) ----
+//@ spec latestRefEntry(tip Hash, ref string) Hash
+//@ spec hasRefEntry(tip Hash, ref string) bool
+//@ define isUpdaterFor(h Hash, ref string) bool = pOK(cmsg(h)) && (pKind(cmsg(h)) == 1 || pKind(cmsg(h)) == 3) && pRef(cmsg(h)) == ref
+//@ axiom latestRefEntryHere: forall(h, Hash, forall(r, string, isUpdaterFor(h, r) ==> hasRefEntry(h, r) && latestRefEntry(h, r) == h))
+//@ axiom latestRefEntryStep: forall(h, Hash, forall(r, string, !isUpdaterFor(h, r) && linkOK(h) ==> hasRefEntry(h, r) == hasRefEntry(cpar(h, 0), r) && latestRefEntry(h, r) == latestRefEntry(cpar(h, 0), r)))
+//@ axiom latestRefEntryFirst: forall(h, Hash, forall(r, string, !isUpdaterFor(h, r) && cnpar(h) == 0 ==> !hasRefEntry(h, r)))
+//@ axiom latestRefEntryIsOne: forall(h, Hash, forall(r, string, hasRefEntry(h, r) ==> isUpdaterFor(latestRefEntry(h, r), r)))
+
+//@ # options are opaque function values; their meaning is given by the constructors' contracts
+//@ spec optKind(o GetLatestReferenceUpdaterEntryOption) int
+//@ spec optStr(o GetLatestReferenceUpdaterEntryOption) string
+//@ func ForReference -> (o)
+//@   trusted
+//@   pure
+//@   ensures optKind(o) == 1 && optStr(o) == reference
+
+//@ # Assumed for now (the scan loops are not yet under contract): with a single ForReference option the reader
+//@ # returns the entry the plain scan defines, or not-found.
+//@ func GetLatestReferenceUpdaterEntry -> (e, anns, err)
+//@   trusted
+//@   requires storer != nil
+//@   assigns ghost faults, fresh(ReferenceEntry.*), fresh(AnnotationEntry.*), fresh(PropagationEntry.*), fresh(elems Hash), fresh(elems *AnnotationEntry)
+//@   ensures len(opts) == 1 && optKind(opts[0]) == 1 && err == nil ==> refSet[Ref] && hasRefEntry(refTip[Ref], optStr(opts[0])) && e != nil && entryAt(e, latestRefEntry(refTip[Ref], optStr(opts[0])))
+//@   ensures len(opts) == 1 && optKind(opts[0]) == 1 && errIs(err, ErrRSLEntryNotFound) && faults == old(faults) ==> !refSet[Ref] || !hasRefEntry(refTip[Ref], optStr(opts[0]))
+//@   ensures len(opts) == 1 && optKind(opts[0]) == 1 && (!refSet[Ref] || !hasRefEntry(refTip[Ref], optStr(opts[0]))) ==> err != nil
+//@   ensures err != nil ==> e == nil
+//@   ensures faults >= old(faults) && (faults > old(faults) ==> err != nil)
